@@ -288,7 +288,7 @@ pub fn st_mod_tab(a: &BigInt, _r: &mut diagn::Report, _s: diagn::Span, b: &BigIn
 }
 
 /// [#addr a, X, end] where X is `#align A` (LABEL = false) or a top-level label in a bank with `#labelalign A`
-fn align_position<const LABEL: bool>() {
+fn align_position<const LABEL: bool, const FULL: bool>() {
     reset_report_model();
     let a: u64 = kani::any();
     let start: u16 = kani::any();
@@ -296,6 +296,8 @@ fn align_position<const LABEL: bool>() {
     let unit = [1usize, 8, 16][k];
     let j: usize = kani::any(); kani::assume(j < 5);
     let al = [1usize, 8, 24, 64, 1usize << 63][j];
+    // quick tier: byte-addressed bank, alignments 24 and 64 bits
+    if !FULL { kani::assume(unit == 8 && (al == 24 || al == 64)); }
     let mut report = diagn::Report::new();
     let mut decls = empty_decls();
     let sym = decls.symbols.verif_push_decl("l", 0, util::SymbolContext::new_global());
@@ -356,7 +358,7 @@ modelled! {
     #[kani::stub(customasm::util::BigInt::checked_add, st_add_wide)]
     #[kani::stub(customasm::util::BigInt::checked_mul, st_mul_unit)]
     #[kani::stub(customasm::util::BigInt::checked_mod, st_mod_tab)]
-    fn c19_a_align_position() { align_position::<false>() }
+    fn c19_a_align_position() { align_position::<false, false>() }
 }
 modelled! {
     #[kani::unwind(4)]
@@ -364,5 +366,22 @@ modelled! {
     #[kani::stub(customasm::util::BigInt::checked_add, st_add_wide)]
     #[kani::stub(customasm::util::BigInt::checked_mul, st_mul_unit)]
     #[kani::stub(customasm::util::BigInt::checked_mod, st_mod_tab)]
-    fn c19_a_labelalign_position() { align_position::<true>() }
+    fn c19_a_labelalign_position() { align_position::<true, false>() }
+}
+
+modelled! {
+    #[kani::unwind(4)]
+    #[kani::stub(customasm::util::BigInt::checked_sub, st_sub_u64)]
+    #[kani::stub(customasm::util::BigInt::checked_add, st_add_wide)]
+    #[kani::stub(customasm::util::BigInt::checked_mul, st_mul_unit)]
+    #[kani::stub(customasm::util::BigInt::checked_mod, st_mod_tab)]
+    fn c19_a_align_position_full() { align_position::<false, true>() }
+}
+modelled! {
+    #[kani::unwind(4)]
+    #[kani::stub(customasm::util::BigInt::checked_sub, st_sub_u64)]
+    #[kani::stub(customasm::util::BigInt::checked_add, st_add_wide)]
+    #[kani::stub(customasm::util::BigInt::checked_mul, st_mul_unit)]
+    #[kani::stub(customasm::util::BigInt::checked_mod, st_mod_tab)]
+    fn c19_a_labelalign_position_full() { align_position::<true, true>() }
 }
